@@ -1,5 +1,220 @@
 package props
 
+import (
+	"fmt"
+	"go/token"
+	"go/types"
+	"os"
+	"strings"
+
+	"golang.org/x/tools/go/packages"
+	"golang.org/x/tools/go/ssa"
+	"golang.org/x/tools/go/ssa/ssautil"
+
+	"rqverif/checker/internal/an"
+	"rqverif/checker/internal/core"
+)
+
 // SelfTest runs the rule primitives on the fixture module; it returns "" when
-// every positive control fires and every negative control is silent.
-func SelfTest(dir string) string { return "" }
+// every positive control fires and every negative control is silent. A rule
+// primitive that stopped matching its positive control would make the checks
+// built on it pass vacuously, so a failure here makes every property undecided.
+func SelfTest(dir string) string {
+	if _, err := os.Stat(dir); err != nil {
+		return "fixture module missing: " + err.Error()
+	}
+	env := []string{}
+	for _, e := range os.Environ() {
+		if strings.HasPrefix(e, "PATH=") || strings.HasPrefix(e, "GOWORK=") || strings.HasPrefix(e, "GOFLAGS=") || strings.HasPrefix(e, "GOTOOLCHAIN=") {
+			continue
+		}
+		env = append(env, e)
+	}
+	env = append(env, "PATH="+core.GoBin+":"+os.Getenv("PATH"), "GOWORK=off", "GOFLAGS=-mod=mod", "GOPROXY=off", "GOSUMDB=off", "GOTOOLCHAIN=local")
+	pkgs, err := packages.Load(&packages.Config{Mode: packages.LoadAllSyntax, Dir: dir, Env: env}, "./...")
+	if err != nil {
+		return "loading fixtures: " + err.Error()
+	}
+	if len(pkgs) != 1 || len(pkgs[0].Errors) > 0 {
+		return fmt.Sprintf("fixtures: %d packages, errors %v", len(pkgs), pkgs[0].Errors)
+	}
+	prog, spkgs := ssautil.AllPackages(pkgs, ssa.InstantiateGenerics)
+	prog.Build()
+	sp := spkgs[0]
+	fn := func(name string) *ssa.Function {
+		if i := strings.Index(name, "."); i > 0 {
+			t := sp.Type(name[:i])
+			if t == nil {
+				return nil
+			}
+			for _, recv := range []types.Type{types.NewPointer(t.Type()), t.Type()} {
+				ms := prog.MethodSets.MethodSet(recv)
+				for j := 0; j < ms.Len(); j++ {
+					if ms.At(j).Obj().Name() == name[i+1:] {
+						return prog.MethodValue(ms.At(j))
+					}
+				}
+			}
+			return nil
+		}
+		return sp.Func(name)
+	}
+	var fails []string
+	expect := func(ok bool, what string) {
+		if !ok {
+			fails = append(fails, what)
+		}
+	}
+	callTo := func(f *ssa.Function, name string) ssa.CallInstruction {
+		for _, c := range an.AllCalls(f, false) {
+			if callee := c.Common().StaticCallee(); callee != nil && callee.Name() == name {
+				return c
+			}
+		}
+		return nil
+	}
+	// DOM with nil-sense edges
+	for _, tc := range []struct {
+		name string
+		hits bool
+	}{{"DomGood", false}, {"DomBad", true}} {
+		f := fn(tc.name)
+		if f == nil {
+			expect(false, tc.name+" missing")
+			continue
+		}
+		chk, act := callTo(f, "check"), callTo(f, "act")
+		if chk == nil || act == nil {
+			expect(false, tc.name+": calls not found")
+			continue
+		}
+		edges := an.SenseEdges(f, an.ErrResult(chk), an.IsNil)
+		h := an.Ungated(an.CutSpec{Fn: f, GateEdge: edges, Sink: func(in ssa.Instruction) bool { return in == act.(ssa.Instruction) }})
+		expect(len(edges) > 0 && (len(h) > 0) == tc.hits, fmt.Sprintf("DOM primitive on %s: %d gate edges, %d ungated sinks", tc.name, len(edges), len(h)))
+	}
+	// comparison edges
+	for _, tc := range []struct {
+		name string
+		hits bool
+	}{{"CmpGood", false}, {"CmpBad", true}} {
+		f := fn(tc.name)
+		if f == nil {
+			expect(false, tc.name+" missing")
+			continue
+		}
+		act := callTo(f, "act")
+		isP := func(i int) func(ssa.Value) bool { return func(v ssa.Value) bool { return v == ssa.Value(f.Params[i]) } }
+		edges := eqEdges(f, isP(0), isP(1))
+		h := an.Ungated(an.CutSpec{Fn: f, GateEdge: edges, Sink: func(in ssa.Instruction) bool { return in == act.(ssa.Instruction) }})
+		expect(len(edges) == 1 && (len(h) > 0) == tc.hits, fmt.Sprintf("equality-edge primitive on %s: %d edges, %d ungated", tc.name, len(edges), len(h)))
+	}
+	// success returns through a defer-spilled named result
+	if f := fn("SuccNamed"); f != nil {
+		n := len(an.SuccessReturns(f))
+		expect(n == 1, fmt.Sprintf("SuccessReturns on SuccNamed: %d (want 1)", n))
+		expect(len(an.Returns(f)) == 3, fmt.Sprintf("Returns on SuccNamed: %d (want 3, the recover block excluded)", len(an.Returns(f))))
+	} else {
+		expect(false, "SuccNamed missing")
+	}
+	// DECIDE
+	if f := fn("Decide"); f != nil {
+		mk := func(ref func(an.Val) string) an.DecideResult {
+			return an.Decide(an.DecideSpec{Fn: f,
+				Vars:  []an.Var{an.Bool("a"), an.Bool("b")},
+				Conds: []an.CondMatcher{an.BoolCond("a", isParamN(f, 0)), an.BoolCond("b", isParamN(f, 1))},
+				Ret: func(r *ssa.Return, resolve func(ssa.Value) ssa.Value) string {
+					k, _ := an.ConstInt(resolve(r.Results[0]))
+					return fmt.Sprint(k)
+				},
+				Ref: ref}, func(p token.Pos) string { return "" })
+		}
+		good := mk(func(v an.Val) string {
+			switch {
+			case v["a"] == 1 && v["b"] == 1:
+				return " => 1"
+			case v["a"] == 1:
+				return " => 2"
+			}
+			return " => 3"
+		})
+		bad := mk(func(v an.Val) string { return " => 3" })
+		expect(good.Rows == 4 && len(good.Mismatches) == 0 && len(good.Undecided) == 0, fmt.Sprintf("DECIDE primitive: rows %d mismatches %d undecided %d (want 4/0/0)", good.Rows, len(good.Mismatches), len(good.Undecided)))
+		expect(len(bad.Mismatches) == 2, fmt.Sprintf("DECIDE primitive with a wrong table: %d mismatches (want 2)", len(bad.Mismatches)))
+	} else {
+		expect(false, "Decide missing")
+	}
+	// GUARD
+	spec := an.GuardSpec{TypeName: "Guarded", Mutex: "mu", Fields: []string{"n"}}
+	for _, tc := range []struct {
+		name string
+		viol bool
+	}{{"Guarded.Good", false}, {"Guarded.Bad", true}, {"Guarded.BadEarlyUnlock", true}, {"Guarded.GoodBranches", false}} {
+		f := fn(tc.name)
+		if f == nil {
+			expect(false, tc.name+" missing")
+			continue
+		}
+		v := an.CheckGuard(f, spec, 0)
+		expect((len(v) > 0) == tc.viol, fmt.Sprintf("GUARD primitive on %s: %d violations", tc.name, len(v)))
+	}
+	// field store forwarding
+	if f := fn("chain.Forward"); f != nil {
+		ok := false
+		for _, r := range an.Returns(f) {
+			v := fwdField(r.Results[0])
+			if call, isC := v.(*ssa.Call); isC {
+				// the second step, whose argument forwards to the first
+				if inner, isC2 := fwdField(call.Call.Args[0]).(*ssa.Call); isC2 && inner != call {
+					ok = true
+				}
+			}
+		}
+		expect(ok, "field store forwarding on chain.Forward")
+	} else {
+		expect(false, "chain.Forward missing")
+	}
+	// LANG
+	{
+		ref, e1 := an.CompileLang(`a+b`)
+		g1, e2 := an.CompileLang(`a+b|c`)
+		g2, e3 := an.CompileLang(`aa+b`)
+		if e1 != nil || e2 != nil || e3 != nil {
+			expect(false, "LANG compile")
+		} else {
+			_, incl, _, err := an.NotIncluded(ref, g1, 10000)
+			expect(err == nil && incl, "LANG inclusion a+b ⊆ a+b|c")
+			w, incl2, _, err2 := an.NotIncluded(ref, g2, 10000)
+			expect(err2 == nil && !incl2 && w == "ab", fmt.Sprintf("LANG witness for a+b ⊄ aa+b: %q", w))
+		}
+	}
+	// PLAN replay
+	{
+		base := an.PathTerm{Base: "dir"}
+		sub := func(n string) an.PathTerm { return an.PathTerm{Base: "dir", Comps: []string{n}} }
+		fs := an.FS{}
+		fs.AddDir(base)
+		fs.AddDir(sub("old"))
+		ops := []an.PlanOp{{Kind: "MkdirAll", Dst: sub("tmp")}, {Kind: "Rename", Src: sub("old"), Dst: an.PathTerm{Base: "dir", Comps: []string{"tmp", "x"}}}, {Kind: "Rename", Src: sub("tmp"), Dst: sub("new")}}
+		res := an.CheckReplay(fs, ops, an.Resume{})
+		nbad := 0
+		for _, r := range res {
+			if r.Err != "" {
+				nbad++
+			}
+		}
+		expect(len(res) == 4 && nbad > 0, fmt.Sprintf("PLAN replay: naive resume of a publish-by-rename plan must fail at some crash point (%d of %d)", nbad, len(res)))
+		g := sub("new")
+		res = an.CheckReplay(fs, ops, an.Resume{GuardExists: &g, Short: nil})
+		nbad = 0
+		for _, r := range res {
+			if r.Err != "" {
+				nbad++
+			}
+		}
+		expect(nbad == 0, fmt.Sprintf("PLAN replay: guarded resume must succeed at every crash point (%d fail)", nbad))
+	}
+	if len(fails) > 0 {
+		return strings.Join(fails, "; ")
+	}
+	return ""
+}
